@@ -136,6 +136,8 @@ class Decl:
                 explicit = pn in self.collisions or r.random() < 0.3
                 attrs[an] = O.DBusProperty(pn, n) if explicit else O.DBusProperty(pn)
                 self.attr[(n, pn)] = an
+            if base is O.DBusObject and cid % 2:
+                attrs['__len__'] = lambda self_: 0       # a falsy exported object
             if touch_iface and base is not O.DBusObject:
                 def touch(self_):
                     return None
